@@ -276,7 +276,9 @@ def run(ctx):
         cov = line_coverage(b, ctx.seed * 211, corpus, 2500 if ctx.tier == 'quick' else 20000)
         ctx.cov['line_coverage_of_sample'] = {k: '%.1f%% of %d lines' % (v[0], v[1]) for k, v in sorted(cov.items())}
         hdr = cov.get('lha_file_header.c')
-        if hdr and hdr[0] < 60:
+        # (a tree that crashes loses the counters of every crashed coverage process: when violations were found the gate would only
+        # hide them behind a harness failure)
+        if hdr and hdr[0] < 60 and not ctx.violations:
             raise core.HarnessFailure('workload reaches only %.0f%% of lha_file_header.c' % hdr[0])
     except core.HarnessFailure:
         raise
